@@ -5,6 +5,10 @@
 //!                         the glob library) for `/dir/**`, `/dir`, `/dir/*`, `*.o`, `/a/b`, `cache`, ... on a fixed
 //!                         tree: the exact set of paths that backup-time, list-time and restore-time selection must
 //!                         keep ("omitted iff it or an ancestor matches"): `/dir/**` keeps `/dir` itself, `/dir` does not.
+//!                         Round 7: a second reference tree whose names differ only in leading / trailing white space
+//!                         (`a`, ` a`, `a `, `tmp`, `tmp `, ` `, NBSP): a pattern given as a STRING is taken literally
+//!                         (`" a"` omits ` a`, never `a`), through `from_strings` and through `from_patterns_and_files`;
+//!                         only the lines of an exclude FILE are trimmed (documented), with their own expectations.
 //!  * `restore_sandbox`    (C16): symlinks owned by another user pointing at sentinels beside the destination
 //!                         (relative `..`, absolute, directory): restore must leave owner / mode / mtime / content
 //!                         of every sentinel untouched; a non-empty destination must be refused untouched, also one
@@ -13,6 +17,12 @@
 //!                         destination (absolute, relative, `..`), second backup interrupted after the hunk holding
 //!                         `/a`: restoring the latest (incomplete) version must create nothing through the link
 //!                         and must report the refused entry; with a COMPLETE second version it restores cleanly.
+//!                         Round 7: the replaced directory holds files at depth 1, 2 and 3 (`a/x`, `a/sub/y`,
+//!                         `a/sub/deeper/z`) and the place the link leads to already HAS `sub/` (with a `y`) and
+//!                         `sub/deeper/`, so that a write through the link at any depth succeeds and is seen; the plain
+//!                         scenario holds siblings whose names extend a symlink's name (`to_file.txt`, `to_dir2/inner`,
+//!                         `to_plainer`, `d/up_up.bak`, `d/up_up2/deep/f`): the whole restored tree must equal the
+//!                         source and no error may be reported.
 //!  * `resume_no_rewrite`  (C14): a backup interrupted after any index hunk and resumed on the unchanged tree
 //!                         writes no data block (everything it needs is already stored), and an unchanged-tree
 //!                         backup writes none and records identical addresses.
@@ -141,7 +151,10 @@ fn exclude_roundtrip() -> Result<Option<Value>, String> {
                     "the same entries", "exclusions select different entries at backup time and at restore time");
             }
         }
-        exclude_reference_table(tmp.path()).await
+        if let Some(v) = exclude_reference_table(tmp.path()).await? {
+            return Ok(Some(v));
+        }
+        exclude_whitespace_table(tmp.path()).await
     })
 }
 
@@ -219,6 +232,102 @@ async fn exclude_reference_table(tmp: &Path) -> Result<Option<Value>, String> {
     Ok(None)
 }
 
+/// Round 7: names and patterns that differ only in leading / trailing white space.  A pattern handed over as a STRING
+/// (`Exclude::from_strings`, the pattern list of `Exclude::from_patterns_and_files`) is a glob over names and is taken
+/// as it is: `" a"` names the entry ` a`, not `a`; `" "` names the entry ` `.  Only the LINES of an exclude file are
+/// trimmed, blank lines and `#` lines dropped (README: "ignoring leading and trailing whitespace"): those expectations
+/// are kept apart.
+async fn exclude_whitespace_table(tmp: &Path) -> Result<Option<Value>, String> {
+    let src = tmp.join("ws_src");
+    write_tree(&src, &[("a", 3), (" a", 4), ("a ", 5), ("b", 3), ("tmp/kept", 3), ("tmp /inside", 4), (" /x", 3), ("\u{a0}nb", 4), ("nb", 3), ("sub/ a", 4), ("sub/a", 3), (" lead/deep/f", 4), ("lead/deep/f", 3)])?;
+    let mut all: Vec<String> = ["/ ", "/ /x", "/ a", "/ lead", "/ lead/deep", "/ lead/deep/f", "/a", "/a ", "/b", "/lead", "/lead/deep", "/lead/deep/f", "/nb", "/sub", "/sub/ a", "/sub/a", "/tmp", "/tmp ", "/tmp /inside", "/tmp/kept", "/\u{a0}nb"]
+        .iter().map(|s| s.to_string()).collect();
+    all.sort();
+    // (patterns given as strings, lines of an exclude file, paths that are OMITTED) -- everything else remains
+    let table: Vec<(Vec<&str>, Option<&str>, Vec<&str>)> = vec![
+        (vec![" a"], None, vec!["/ a", "/sub/ a"]),
+        (vec!["a"], None, vec!["/a", "/sub/a"]),
+        (vec!["a "], None, vec!["/a "]),
+        (vec!["tmp "], None, vec!["/tmp ", "/tmp /inside"]),
+        (vec!["tmp"], None, vec!["/tmp", "/tmp/kept"]),
+        (vec![" "], None, vec!["/ ", "/ /x"]),
+        (vec!["/ a"], None, vec!["/ a"]),
+        (vec!["/a"], None, vec!["/a"]),
+        (vec!["\u{a0}nb"], None, vec!["/\u{a0}nb"]),
+        (vec!["nb"], None, vec!["/nb"]),
+        (vec![" lead"], None, vec!["/ lead", "/ lead/deep", "/ lead/deep/f"]),
+        (vec![" a", "tmp "], None, vec!["/ a", "/sub/ a", "/tmp ", "/tmp /inside"]),
+        (vec!["/tmp /**"], None, vec!["/tmp /inside"]),
+        (vec![" *"], None, vec!["/ ", "/ /x", "/ a", "/ lead", "/ lead/deep", "/ lead/deep/f", "/sub/ a"]),
+        (vec!["* "], None, vec!["/ ", "/ /x", "/a ", "/tmp ", "/tmp /inside"]),
+        (vec!["  ", "b "], None, vec![]),
+        // an exclude FILE: lines are trimmed, blank and comment lines dropped (documented)
+        (vec![], Some(" a\n\ntmp \n# a comment\n   \n"), vec!["/a", "/sub/a", "/tmp", "/tmp/kept"]),
+        (vec![], Some("\t/ a \n lead\t\n"), vec!["/ a", "/lead", "/lead/deep", "/lead/deep/f"]),
+        // both: the string is literal, the line of the file is trimmed
+        (vec![" a"], Some("tmp \n"), vec!["/ a", "/sub/ a", "/tmp", "/tmp/kept"]),
+    ];
+    let full = Archive::create_path(&tmp.join("ws_full")).await.map_err(|e| format!("setup failed at line {}: {e:?}", line!()))?;
+    conserve::backup(&full, &src, &BackupOptions::default(), Arc::new(VoidMonitor)).await.map_err(|e| format!("setup failed at line {}: {e:?}", line!()))?;
+    let mut all_listed: Vec<String> = listing(&full, 0, Exclude::nothing()).await?.into_iter().filter(|p| p != "/").collect();
+    all_listed.sort();
+    if all_listed != all {
+        return Err(format!("setup failed: the white-space reference tree lists as {all_listed:?}"));
+    }
+    for (ti, (pats, file_lines, omitted)) in table.iter().enumerate() {
+        if let Some(bad) = omitted.iter().find(|o| !all.iter().any(|a| a == *o)) {
+            return Err(format!("setup failed: the white-space table names {bad:?} which is not in the tree"));
+        }
+        let want: Vec<String> = all.iter().filter(|p| !omitted.contains(&p.as_str())).cloned().collect();
+        let file = tmp.join(format!("ws_exclude_{ti}.txt"));
+        if let Some(lines) = file_lines {
+            std::fs::write(&file, lines).map_err(|e| format!("setup failed at line {}: {e:?}", line!()))?;
+        }
+        let files: Vec<PathBuf> = file_lines.iter().map(|_| file.clone()).collect();
+        let mut constructors: Vec<&str> = vec!["Exclude::from_patterns_and_files"];
+        if file_lines.is_none() {
+            constructors.insert(0, "Exclude::from_strings");
+        }
+        for ctor in constructors {
+            let ex = || match ctor {
+                "Exclude::from_strings" => Exclude::from_strings(pats.clone()),
+                _ => Exclude::from_patterns_and_files(pats.clone(), files.clone()),
+            }
+            .map_err(|e| format!("setup failed: {ctor} rejects {pats:?}: {e:?}"));
+            let report = |phase: &str, got: &Vec<String>| {
+                let wrongly_omitted: Vec<&String> = want.iter().filter(|p| !got.contains(p)).collect();
+                let wrongly_kept: Vec<&String> = got.iter().filter(|p| !want.contains(p)).collect();
+                found("exclude_roundtrip", json!({"constructor": ctor, "patterns": pats, "exclude_file_content": file_lines, "phase": phase, "tree": all}),
+                    format!("{phase}: omitted although neither the entry nor an ancestor matches: {wrongly_omitted:?}; kept although the entry or an ancestor matches: {wrongly_kept:?}"), &format!("exactly {want:?}"),
+                    "a pattern given as a string is a glob over names as it stands: white space at its ends is part of it (only the lines of an exclude file are trimmed); an entry is omitted if and only if it or an ancestor matches")
+            };
+            let part_dir = tmp.join(format!("ws_part{ti}"));
+            let _ = std::fs::remove_dir_all(&part_dir);
+            let part = Archive::create_path(&part_dir).await.map_err(|e| format!("setup failed at line {}: {e:?}", line!()))?;
+            conserve::backup(&part, &src, &BackupOptions { exclude: ex()?, ..BackupOptions::default() }, Arc::new(VoidMonitor)).await.map_err(|e| format!("setup failed at line {}: {e:?}", line!()))?;
+            let mut stored: Vec<String> = listing(&part, 0, Exclude::nothing()).await?.into_iter().filter(|p| p != "/").collect();
+            stored.sort();
+            if stored != want {
+                return report("backup with the exclusions", &stored);
+            }
+            let mut listed: Vec<String> = listing(&full, 0, ex()?).await?.into_iter().filter(|p| p != "/").collect();
+            listed.sort();
+            if listed != want {
+                return report("listing the full backup with the exclusions", &listed);
+            }
+            let dest = tmp.join("ws_dest");
+            let _ = std::fs::remove_dir_all(&dest);
+            conserve::restore(&full, &dest, RestoreOptions { exclude: ex()?, ..RestoreOptions::default() }, Arc::new(VoidMonitor)).await.map_err(|e| format!("setup failed at line {}: {e:?}", line!()))?;
+            let mut restored: Vec<String> = tree_snapshot(&dest, &[])?.into_keys().map(|k| format!("/{k}")).collect();
+            restored.sort();
+            if restored != want {
+                return report("restoring the full backup with the exclusions", &restored);
+            }
+        }
+    }
+    Ok(None)
+}
+
 // ---------------------------------------------------------------------------------------------- C16
 #[derive(Debug, PartialEq)]
 struct Snap { uid: u32, gid: u32, mode: u32, mtime: (i64, i64), content: Option<Vec<u8>> }
@@ -247,6 +356,8 @@ fn restore_sandbox() -> Result<Option<Value>, String> {
     symlink(&sentinel_dir, src.join("to_dir")).map_err(|e| format!("setup failed at line {}: {e:?}", line!()))?;
     symlink("../../sentinel_file", src.join("d/up_up")).map_err(|e| format!("setup failed at line {}: {e:?}", line!()))?;
     symlink("plain", src.join("to_plain")).map_err(|e| format!("setup failed at line {}: {e:?}", line!()))?;
+    // siblings whose names merely extend the name of a symlink: they do not lie below it
+    write_tree(&src, &[("to_file.txt", 6), ("to_dir2/inner", 7), ("to_plainer", 8), ("to_plain-2/x/y", 9), ("d/up_up.bak", 5), ("d/up_up2/deep/f", 4)])?;
     // dot-names in the archived tree: a destination that already holds such names must not be written over / through
     std::fs::write(src.join(".config"), b"settings from the archive").map_err(|e| format!("setup failed at line {}: {e:?}", line!()))?;
     std::fs::create_dir_all(src.join(".cache")).map_err(|e| format!("setup failed at line {}: {e:?}", line!()))?;
@@ -272,6 +383,16 @@ fn restore_sandbox() -> Result<Option<Value>, String> {
         if after != before {
             return found("restore_sandbox", json!({"root": is_root}), format!("sentinels after restore: {after:?}"), &format!("{before:?}"),
                 "restoring symlinks changed something they point to, outside the destination");
+        }
+        let restore_errors = monitor.take_errors();
+        if let Some(d) = super::w_round5::snapshot_diff(&super::w_round5::tree_snapshot(&dest), &super::w_round5::tree_snapshot(&src)) {
+            return found("restore_sandbox", json!({"scenario": "symlinks next to siblings whose names extend the link's name", "root": is_root}), format!("restored tree against the source: {d}; {} error(s) reported{}", restore_errors.len(),
+                restore_errors.first().map(|e| format!(" (first: {e})")).unwrap_or_default()), "every entry of the source is restored (a sibling of a symlink is not below it)",
+                "restore skipped entries beside a restored symlink because their names begin with the link's name");
+        }
+        if !restore_errors.is_empty() {
+            return found("restore_sandbox", json!({"scenario": "symlinks next to siblings whose names extend the link's name", "root": is_root}), format!("{} error(s) reported, first: {}", restore_errors.len(), restore_errors[0]), "no error",
+                "restoring a complete version with symlinks reported errors");
         }
         for l in ["to_file", "to_dir", "d/up_up", "to_plain"] {
             let m = std::fs::symlink_metadata(dest.join(l)).map_err(|e| format!("setup failed at line {}: {e:?}", line!()))?;
@@ -381,11 +502,20 @@ async fn stitched_symlink_case(name: &str, target: LinkTarget, interrupted: bool
     std::fs::create_dir_all(&sentinel_dir).map_err(|e| format!("setup failed at line {}: {e:?}", line!()))?;
     std::fs::write(sentinel_dir.join("keep"), b"do not touch").map_err(|e| format!("setup failed at line {}: {e:?}", line!()))?;
     std::fs::write(sandbox.join("beside"), b"beside the destination").map_err(|e| format!("setup failed at line {}: {e:?}", line!()))?;
+    // wherever the link leads (sentinel_dir, or the sandbox itself for `..`) the directories `sub/` and `sub/deeper/` exist
+    // already, `sub/y` too: a write through the link at depth 2 or 3 would succeed
+    for outside in [&sentinel_dir, &sandbox] {
+        std::fs::create_dir_all(outside.join("sub/deeper")).map_err(|e| format!("setup failed at line {}: {e:?}", line!()))?;
+        std::fs::write(outside.join("sub/y"), b"SENTINEL y: must never change").map_err(|e| format!("setup failed at line {}: {e:?}", line!()))?;
+        for p in ["sub/y", "sub/deeper", "sub"] {
+            filetime::set_file_mtime(outside.join(p), filetime::FileTime::from_unix_time(1_000_000_003, 8)).map_err(|e| format!("setup failed at line {}: {e:?}", line!()))?;
+        }
+    }
     filetime::set_file_mtime(&sentinel_dir, filetime::FileTime::from_unix_time(1_000_000_001, 6)).map_err(|e| format!("setup failed at line {}: {e:?}", line!()))?;
     filetime::set_file_mtime(&sandbox, filetime::FileTime::from_unix_time(1_000_000_002, 7)).map_err(|e| format!("setup failed at line {}: {e:?}", line!()))?;
     // source and archive live outside the sandbox, so that the sandbox holds only sentinels and the destination
     let src = tmp.path().join("src");
-    write_tree(&src, &[("a/x", 9), ("a/sub/y", 5), ("plain", 7)])?;
+    write_tree(&src, &[("a/x", 9), ("a/sub/y", 5), ("a/sub/deeper/z", 6), ("plain", 7)])?;
     let opts = || BackupOptions { max_entries_per_hunk: 1, ..BackupOptions::default() };
     let archive_path = tmp.path().join("archive");
     let archive = Archive::create_path(&archive_path).await.map_err(|e| format!("setup failed at line {}: {e:?}", line!()))?;
@@ -426,8 +556,8 @@ async fn stitched_symlink_case(name: &str, target: LinkTarget, interrupted: bool
         }
     }
     let below: Vec<&String> = listed.iter().filter(|p| p.starts_with("/a/")).collect();
-    if interrupted && below.is_empty() {
-        return Err(format!("setup failed: the stitched listing holds nothing below /a: {listed:?}"));
+    if interrupted && !["/a/x", "/a/sub/y", "/a/sub/deeper/z"].iter().all(|p| below.iter().any(|b| b == p)) {
+        return Err(format!("setup failed: the stitched listing does not hold the files below /a at depth 1, 2 and 3: {listed:?}"));
     }
     if !interrupted && !below.is_empty() {
         return Err(format!("setup failed: the complete second version lists entries below the symlink: {listed:?}"));
